@@ -395,6 +395,40 @@ fn drive(cfg: &Config, slot: usize, progs: &[(String, Vec<Req>, Vec<u8>)], memcr
         }
         std::thread::sleep(Duration::from_millis(50));
     }
+    // ---- clients that give up waiting: with every slot taken, two more clients connect, send a
+    // request and close without an answer; the configured limit is still the limit afterwards ----
+    {
+        let want = cfg.conn_limit as usize;
+        let mut holders = vec![];
+        for i in 0..want {
+            if let Ok(mut c) = Client::connect(srv.addr) {
+                c.send(&Req::bare(op::NOOP).opaque(0x6100 + i as u32).bytes());
+                c.read_frames(1, patience);
+                holders.push(c);
+            }
+        }
+        for i in 0..2 {
+            if let Ok(mut c) = Client::connect(srv.addr) {
+                c.send(&Req::bare(op::NOOP).opaque(0x6200 + i as u32).bytes());
+                std::thread::sleep(Duration::from_millis(120));
+                drop(c);
+            }
+            std::thread::sleep(Duration::from_millis(120));
+        }
+        // the holders are still there: one more client must not be served
+        if let Ok(mut extra) = Client::connect(srv.addr) {
+            extra.send(&Req::bare(op::NOOP).opaque(0x6300).bytes());
+            let got = extra.read_frames(1, Duration::from_millis(400));
+            if !wire::split_responses(&got).0.is_empty() {
+                problems.push((
+                    "conn-limit|raised-by-abandoned-waiters".into(),
+                    format!("connection limit {}: with {} connections open, two clients connected and gave up waiting; then a further client was served", want, holders.len()),
+                ));
+            }
+        }
+        drop(holders);
+        std::thread::sleep(Duration::from_millis(150));
+    }
     // ---- connection limit: 8 x limit connections, at most `limit` served ----
     {
         let want = cfg.conn_limit as usize;
